@@ -40,7 +40,7 @@ LEVEL_TEXT = {
 }
 
 # properties with a check implemented (kept in sync with rules/*.py)
-IMPLEMENTED = ["C16", "C04", "C19", "C20", "C12", "C14", "C02", "C01", "C08", "C10", "C13", "C03", "C17", "C18"]
+IMPLEMENTED = ["C16", "C04", "C19", "C20", "C12", "C14", "C02", "C01", "C08", "C10", "C13", "C03", "C17", "C18", "C15", "C05", "C06", "C07"]
 
 NOT_APPLICABLE = {
     "C09": "DFS exhaustiveness/uniqueness is index arithmetic over a run-time stack for all tree shapes; no ownership/ordering/dataflow "
